@@ -726,6 +726,41 @@ def case_hat(ctx, cfg):
             want = np.einsum("nij,nj->ni", L, Qv)
             if e is not None or not np.array_equal(got, want):
                 ctx.fail("matvec:flags", "matvec", {"transpose_a": ta, "adjoint_a": aa}, "a' v", e if e is not None else "mismatch")
+        # batch shapes: single x batch, batch x single, broadcasting between different leading shapes, several leading axes,
+        # non-square factors; every flag combination (the stored operand is the transposed / conjugated one)
+        def det_vals(shape, k0):
+            m = int(np.prod(shape))
+            vals = (np.arange(m) * 7 + k0) % 5 - 2
+            return (vals + 1j * ((np.arange(m) * 3 + k0) % 3 - 1)).reshape(shape)
+
+        shapes = [((2, 3), (5, 3, 2)), ((5, 2, 3), (3, 4)), ((2, 1, 2, 3), (1, 3, 3, 2)), ((4, 3, 2, 2), (4, 3, 2, 2)), ((3, 1, 3), (1, 3, 1)), ((2, 2, 2, 3, 3), (2, 3, 3))]
+        for (sa, sb), (ta, tb, aa, ab) in itertools.product(shapes, itertools.product((False, True), repeat=4)):
+            L, R = det_vals(sa, 1), det_vals(sb, 2)
+            want = np.einsum("...ij,...jk->...ik", L, R)
+            Pst = np.swapaxes(L, -1, -2) if (ta or aa) else L
+            Pst = Pst.conj() if aa else Pst
+            Qst = np.swapaxes(R, -1, -2) if (tb or ab) else R
+            Qst = Qst.conj() if ab else Qst
+            if (ta and aa) or (tb and ab):
+                continue  # both flags on one operand: covered by the square case above
+            got, e = ctx.call(matmul, np.ascontiguousarray(Pst), np.ascontiguousarray(Qst), transpose_a=ta, transpose_b=tb, adjoint_a=aa, adjoint_b=ab)
+            ctx.trace()
+            ctx.state(("matmul-batch", sa, sb, ta, tb, aa, ab))
+            if e is not None or np.shape(got) != want.shape or not np.array_equal(got, want):
+                ctx.fail("matmul:batch-shapes", "matmul", {"shape_a": list(Pst.shape), "shape_b": list(Qst.shape), "transpose_a": ta, "transpose_b": tb, "adjoint_a": aa, "adjoint_b": ab}, "broadcast matrix products", e if e is not None else list(np.shape(got)))
+                break
+        vshapes = [((2, 3), (5, 3)), ((5, 2, 3), (3,)), ((2, 1, 2, 3), (1, 4, 3)), ((4, 3, 3, 3), (4, 3, 3))]
+        for (sa, sv), (ta, aa) in itertools.product(vshapes, ((False, False), (True, False), (False, True))):
+            L, V = det_vals(sa, 3), det_vals(sv, 4)
+            want = np.einsum("...ij,...j->...i", L, V)
+            Pst = np.swapaxes(L, -1, -2) if (ta or aa) else L
+            Pst = Pst.conj() if aa else Pst
+            got, e = ctx.call(matvec, np.ascontiguousarray(Pst), V, transpose_a=ta, adjoint_a=aa)
+            ctx.trace()
+            ctx.state(("matvec-batch", sa, sv, ta, aa))
+            if e is not None or np.shape(got) != want.shape or not np.array_equal(got, want):
+                ctx.fail("matvec:batch-shapes", "matvec", {"shape_a": list(Pst.shape), "shape_v": list(V.shape), "transpose_a": ta, "adjoint_a": aa}, "broadcast matrix-vector products", e if e is not None else list(np.shape(got)))
+                break
         U = np.array(list(itertools.product(range(-1, 2), repeat=3)), dtype=np.int64)
         got, e = ctx.call(outer, U[:, None, :] * (1 + 1j), U[None, :, :2])
         ctx.trace(len(U) ** 2)
@@ -733,3 +768,65 @@ def case_hat(ctx, cfg):
         want = np.einsum("ai,bj->abij", U * (1 + 1j), U[:, :2])
         if e is not None or not np.array_equal(got, want):
             ctx.fail("outer", "outer", {"shapes": [[27, 1, 3], [1, 27, 2]]}, "a_i b_j", e if e is not None else "mismatch")
+
+
+# ---------------------------------------------------------------------------------------------------
+# several leading batch axes: the kernels applied to a stack reshaped to (2, 3, ...), (6, 1, ...), (1, 6, ...), (2, 1, 3, ...)
+# must return, position by position, what they return for the single matrices (which the families above compare with the
+# exact oracles)
+
+
+def enum_batch_axes(tier, seed):
+    for fn in ("det", "inv", "adjugate", "null_space", "orth"):
+        for n in (2, 3, 4):
+            for dt in ("float64", "complex128", "int64"):
+                yield (fn, n, dt)
+
+
+@family("C20", "batch_axes", enum_batch_axes)
+def case_batch_axes(ctx, cfg):
+    import geometer.utils as U
+
+    fn, n, dt = cfg
+    ctx.state(cfg)
+    k = np.arange(6 * n * n)
+    A = ((k * 7 + 3) % 5 - 2).reshape(6, n, n).astype(np.int64)
+    A = A + np.eye(n, dtype=np.int64)[None] * (np.arange(6)[:, None, None] % 3 + 11)  # diagonally dominant: invertible, also with the imaginary parts below
+    if fn in ("null_space", "orth"):
+        A[:, -1, :] = A[:, 0, :]  # rank deficient: a kernel of dimension >= 1
+    if dt == "complex128":
+        A = A + 1j * np.roll(A, 1, axis=-1) * (1 if fn not in ("null_space", "orth") else 0)
+    A = A.astype(dt)
+    if fn == "inv" and dt == "int64":
+        return
+    f = getattr(U, fn)
+    kw = {}
+    if fn in ("null_space", "orth"):
+        kw = {"dim": 1} if fn == "null_space" else {"dim": n - 1}
+    singles = []
+    for i in range(6):
+        r, e = ctx.call(f, A[i], **kw)
+        ctx.trace()
+        if e is not None:
+            ctx.fail(f"{fn}:single-raises:{type(e).__name__}", fn, {"n": n, "dtype": dt, "matrix": A[i]}, "a result", e)
+            return
+        singles.append(np.asarray(r))
+    for shape in ((6,), (2, 3), (3, 2), (6, 1), (1, 6), (2, 1, 3)):
+        B = A.reshape(shape + (n, n))
+        r, e = ctx.call(f, B, **kw)
+        ctx.trace(6)
+        inputs = {"n": n, "dtype": dt, "batch_shape": list(shape)}
+        if e is not None or np.shape(r)[: len(shape)] != shape:
+            ctx.fail(f"{fn}:batch-axes:{type(e).__name__ if e is not None else 'shape'}", fn, inputs, "leading shape " + str(list(shape)), e if e is not None else list(np.shape(r)))
+            return
+        flat = np.asarray(r).reshape((6,) + np.shape(r)[len(shape) :])
+        for i in range(6):
+            got, want = flat[i], singles[i]
+            if fn in ("null_space", "orth"):
+                # the same subspace (bases may differ): projectors agree
+                ok = got.shape == want.shape and np.allclose(got @ got.conj().T, want @ want.conj().T, atol=1e-9)
+            else:
+                ok = got.shape == want.shape and np.allclose(got, want, rtol=1e-9, atol=1e-9)
+            if not ok:
+                ctx.fail(f"{fn}:batch-axes:value", fn, {**inputs, "position": i}, want, got)
+                return
